@@ -166,6 +166,7 @@ def main(argv=None):
     ap.add_argument("--seed", type=int, default=int(os.environ.get("VERIF_SEED", "0")))
     ap.add_argument("--only", help="substring filter on case ids (debugging)")
     ap.add_argument("--limit", type=int)
+    ap.add_argument("--rounds", type=int, help="number of seeds explored in one run (default: 3 for thorough, 1 for quick)")
     ap.add_argument("--no-evidence", action="store_true")
     a = ap.parse_args(argv)
     prop = a.prop.upper()
@@ -193,6 +194,15 @@ def main(argv=None):
         specs = [replay_spec]
     else:
         specs = mod.cases(a.tier, a.seed)
+        # the thorough tier explores several seeds in one run: generated cases (those carrying an "index") are drawn again
+        # under further seeds, cases fixed by a file or a name run once
+        rounds = a.rounds if a.rounds is not None else (int(os.environ.get("VERIF_ROUNDS", "3")) if a.tier == "thorough" else 1)
+        for r in range(1, max(1, rounds)):
+            sd_r = a.seed + 1000 * r
+            for s_ in mod.cases(a.tier, sd_r):
+                if "index" in s_:
+                    s_ = dict(s_, seed=sd_r, id="%s@s%d" % (s_.get("id"), sd_r))
+                    specs.append(s_)
         if a.only:
             specs = [s for s in specs if a.only in str(s.get("id"))]
         if a.limit:
